@@ -6,7 +6,7 @@ import ast
 from .. import astq, reference, smf, wire
 from ..absint import AbsRaise, AList, AObj, EVENT_LOG, Opaque, SeqVar
 from ..fold import ClassRef
-from ..model import AnalysisError, FuncInfo, unparse
+from ..model import AnalysisError, ClassInfo, FuncInfo, unparse
 from ..wire import AFile, Field, StrSym, VLQ
 
 LEVEL = 'other'
@@ -123,7 +123,7 @@ def r17_scoping(ctx):
         raise AnalysisError('MidiFile._load/_save not found')
     ctx.fn(load)
     ctx.fn(save)
-    mc = ctx.fn(ctx.p.func(META, 'meta_charset'))
+    mc, mcw, mcfns = _mc(ctx)
     initial = ctx.f.table(META, '_charset')
     o, mbytes = ctx.p.lookup_method(ctx.p.cls(META, 'MetaMessage'), 'bytes')
     n = 0
@@ -156,7 +156,7 @@ def r17_scoping(ctx):
 
 
 def _judge(ctx, ai, outs, inst, fn, mc, charset, initial, expect, mbytes):
-    w = ctx.where(mc)
+    w = _mc(ctx)[1]
     cons_leak = f'{mc.qname}::restore::{"after-return" if expect == "return" else "after-exception"}'
     if len(outs) != 1:
         ctx.fail('R17.1', inst, ctx.where(fn), f'the call does not have one outcome: {outs}', construct=f'{fn.qname}::outcomes')
@@ -184,22 +184,46 @@ def _judge(ctx, ai, outs, inst, fn, mc, charset, initial, expect, mbytes):
     ctx.require(later == ['latin1'], 'R17.1', f'{inst}.later-encode', w, f'a meta message encoded after the call uses {later}', construct=cons_leak)
 
 
+def _mc(ctx):
+    """The scoped override: a @contextmanager function today; a context manager class of the same name serves as well.
+    Returns (anchor with .qname, where-text, the functions that make it up)."""
+    m = ctx.p.module(META)
+    if 'meta_charset' in m.functions:
+        fn = ctx.fn(m.functions['meta_charset'])
+        return fn, ctx.where(fn), [fn]
+    if 'meta_charset' in m.classes:
+        c = m.classes['meta_charset']
+        fns = [ctx.fn(f) for f in c.methods.values()]
+        return c, f'{m.relpath}:{c.node.lineno} meta_charset', fns
+    raise AnalysisError(f'meta_charset not found in {m.relpath}')
+
+
 def r17_2(ctx):
     m = ctx.p.module(META)
-    mc = ctx.p.func(META, 'meta_charset')
+    mc, mcw, mcfns = _mc(ctx)
     # functions reachable only from meta_charset
-    helpers = {mc.qname}
+    helpers = {f.qname for f in mcfns}
     changed = True
     while changed:
         changed = False
-        for c in astq.calls(mc.node):
-            r = astq.resolve_callee(ctx.p, mc, c)
-            if isinstance(r, FuncInfo) and r.qname not in helpers and r.module.name == META:
-                callers = {f.qname for f in ctx.p.all_functions() for cc in astq.calls(f.node)
-                           if isinstance(astq.resolve_callee(ctx.p, f, cc), FuncInfo) and astq.resolve_callee(ctx.p, f, cc).qname == r.qname}
-                if callers <= helpers:
-                    helpers.add(r.qname)
-                    changed = True
+        for owner in list(ctx.p.all_functions()):
+            if owner.qname not in helpers:
+                continue
+            for c in astq.calls(owner.node):
+                r = astq.resolve_callee(ctx.p, owner, c)
+                if isinstance(r, ClassInfo) and r.module.name == META and not all(f.qname in helpers for f in r.methods.values()):
+                    # a private class instantiated by the override only (its scope object): its methods are part of the override
+                    makers = {f.qname for f in ctx.p.all_functions() for cc in astq.calls(f.node)
+                              if astq.resolve_callee(ctx.p, f, cc) is r}
+                    if makers <= helpers | {f.qname for f in r.methods.values()}:
+                        helpers |= {f.qname for f in r.methods.values()}
+                        changed = True
+                if isinstance(r, FuncInfo) and r.qname not in helpers and r.module.name == META:
+                    callers = {f.qname for f in ctx.p.all_functions() for cc in astq.calls(f.node)
+                               if isinstance(astq.resolve_callee(ctx.p, f, cc), FuncInfo) and astq.resolve_callee(ctx.p, f, cc).qname == r.qname}
+                    if callers <= helpers:
+                        helpers.add(r.qname)
+                        changed = True
     n = 0
     for fn in ctx.p.all_functions():
         gl = set()
@@ -211,7 +235,7 @@ def r17_2(ctx):
                 n += 1
                 ctx.require(fn.qname in helpers, 'R17.2', f'writer({fn.name})', ctx.where(fn, st),
                             f'{fn.name} assigns the process-wide charset outside the scoped override', construct=f'{fn.qname}::writes(_charset)')
-            if isinstance(t, ast.Attribute) and t.attr == '_charset':
+            if isinstance(t, ast.Attribute) and t.attr == '_charset' and not (isinstance(t.value, ast.Name) and t.value.id in ('self', 'cls')):
                 n += 1
                 ctx.fail('R17.2', f'writer({fn.name})', ctx.where(fn, st), f'{unparse(st)[:60]} rebinds the charset from outside',
                          construct=f'{fn.qname}::writes(_charset)')
@@ -306,7 +330,7 @@ def r17_4(ctx):
 def r17_nested(ctx):
     """Nested overrides unwind level by level."""
     ai = make_interp(ctx)
-    mc = ctx.fn(ctx.p.func(META, 'meta_charset'))
+    mc, mcw, mcfns = _mc(ctx)
     src = ("def probe(fail):\n"
            "    with meta_charset('outer'):\n"
            "        a = _charset\n"
@@ -331,7 +355,7 @@ def r17_nested(ctx):
             return ai.call_function(probe, [fail], {})
         outs = ai.explore(thunk)
         ok = len(outs) == 1 and outs[0].kind == 'return' and (tuple(outs[0].value.items) if isinstance(outs[0].value, AList) else outs[0].value) == ('outer', 'inner', 'outer', 'latin1')
-        ctx.require(ok, 'R17.1', f'nested(meta_charset, inner block {"raises" if fail else "completes"})', ctx.where(mc),
+        ctx.require(ok, 'R17.1', f'nested(meta_charset, inner block {"raises" if fail else "completes"})', mcw,
                     f'charset seen outer/inner/after-inner/after-outer: {outs}; expected outer, inner, outer, latin1',
                     construct=f'{mc.qname}::nested::{"exception" if fail else "normal"}')
 
@@ -395,7 +419,7 @@ def r17_faults(ctx):
     to raise in turn; the override must not survive the failed `with` statement.  Catches work placed between the assignment
     of the global and the try/finally that restores it."""
     ai = make_interp(ctx)
-    mc = ctx.fn(ctx.p.func(META, 'meta_charset'))
+    mc, mcw, mcfns = _mc(ctx)
     src = ("def probe():\n"
            "    with meta_charset('utf-16'):\n"
            "        pass\n"
@@ -419,13 +443,13 @@ def r17_faults(ctx):
         return outs, list(getattr(ai, 'ext_call_names', [])), ai.global_store.get(KEY, 'latin1')
     outs, names, after = run(None)
     ok = len(outs) == 1 and outs[0].kind == 'return' and outs[0].value == 'latin1'
-    ctx.require(ok, 'R17.1', 'with meta_charset(X): pass', ctx.where(mc), f'{outs}; charset afterwards must be latin1',
+    ctx.require(ok, 'R17.1', 'with meta_charset(X): pass', mcw, f'{outs}; charset afterwards must be latin1',
                 construct=f'{mc.qname}::plain')
     ctx.extra['library_calls_inside_meta_charset'] = names
     for k in range(1, len(names) + 1):
         outs, _, after = run(k)
         raised = bool(outs) and all(o.kind == 'raise' for o in outs)
-        ctx.require(raised and after == 'latin1', 'R17.1', f'fault in call #{k} ({names[k - 1]}) inside meta_charset', ctx.where(mc),
+        ctx.require(raised and after == 'latin1', 'R17.1', f'fault in call #{k} ({names[k - 1]}) inside meta_charset', mcw,
                     f'when {names[k - 1]}() raises inside meta_charset the outcome is {outs} and the charset in force afterwards is {after!r} '
                     '(the override leaks out of the failed call)', construct=f'{mc.qname}::fault::{names[k - 1]}')
     ai.global_store.pop(KEY, None)
